@@ -85,9 +85,16 @@ def generate(rng, tier):
     for _ in range(rng.choice([0, 1, 2])):
         ops.append(_query_op(rng, t_w + rng.choice([0.0, 0.05, 0.13, 0.26, 0.4, 1.0, 2.0]), svcs, victim))
     reregister = None
-    if mode == "unregister" and rng.random() < 0.2:
+    if any(o["op"] == "close" for o in ops):
+        pass  # nothing is registered on an instance that is being closed
+    elif mode == "unregister" and rng.random() < 0.2:
         reregister = t_w + rng.choice([0.3, 0.6, 1.5])
         ops.append({"t": reregister, "op": "register", "h": "R", "svc": svcs[victim]})
+    elif mode == "unregister" and rng.random() < 0.1:
+        # registered again at once, without probing (cooperating_responders): the goodbyes of the unregistration are
+        # still going out
+        reregister = round(t_w + rng.choice([0.02, 0.1, 0.13, 0.2]), 6)
+        ops.append({"t": reregister, "op": "register", "h": "R", "svc": svcs[victim], "cooperating": True})
     if rng.random() < 0.3:
         # the responder's process is descheduled for a while: queries pile up in its socket, its timers fire late
         for _ in range(rng.choice([1, 1, 2])):
@@ -208,12 +215,17 @@ def _oracle(w, drv, sc, out):
                 if recs.ptr.ident() in zero:
                     gb.append((tx, zero))
             # a later re-registration of the same name closes the window
-            t_rereg = min([t for t, k, n in timeline if t > wd["t"] and
+            t_rereg = min([t for t, k, n in timeline if t >= wd["t"] and (t > wd["t"] or k == "reg") and
                            ((k == "reg" and n.lower() == s["name"].lower()) or
                             (k == "upd" and n["name"].lower() == s["name"].lower()))], default=None)
             per_sock = {}
             for tx, zero in gb:
                 per_sock.setdefault(tx.sock, []).append((tx, zero))
+            if t_rereg is not None and all(tx.t <= t_rereg + 1e-6 for tx, _ in gb) and \
+                    (not gb or min(len(v) for v in per_sock.values()) < 3):
+                # registered again before the goodbyes were through: the remaining ones would withdraw the new registration
+                # and are not owed (nor is anything judged "after the third goodbye")
+                continue
             if not gb:
                 out.add("C08.goodbye-missing", f"no goodbye for {s['name']} after {wd['mode']} at {w.rel(wd['t']):.3f}",
                         mode=wd["mode"])
@@ -256,6 +268,22 @@ def _oracle(w, drv, sc, out):
                         break
                 else:
                     continue
+                break
+    # a goodbye never follows the new registration of the same name: it would withdraw it
+    t_first_close = min([t2 for t2, k2, n2 in timeline if k2 == "close"], default=float("inf"))
+    for t_reg, kind, name in timeline:
+        if kind != "reg" or t_reg >= t_first_close or not any(k2 == "unreg" and n2.lower() == name.lower() and t2 < t_reg for t2, k2, n2 in timeline
+                                    if k2 == "unreg"):
+            continue
+        t_next = min([t2 for t2, k2, n2 in timeline if t2 > t_reg and k2 in ("unreg", "close") and
+                      (k2 == "close" or n2.lower() == name.lower())], default=float("inf"))
+        ptr = SvcRecords(svcs[name.lower()]).ptr.ident()
+        for tx in rtrace:
+            if tx.t <= t_reg + 1e-9 or tx.t >= t_next or tx.msg is None or not tx.msg.is_response:
+                continue
+            if any(r.ttl == 0 and r.ident() == ptr for r in tx.msg.records()):
+                out.add("C08.goodbye-after-reregistration", f"{name}: registered again at {w.rel(t_reg):.3f} but a goodbye for "
+                        f"it was multicast at {w.rel(tx.t):.3f}")
                 break
     out.sample = {"ops": sc["ops"][2:8], "withdrawals": [(round(w.rel(x["t"]), 3), x["mode"]) for x in withdrawals],
                   "tx": len(rtrace)}
